@@ -43,6 +43,11 @@ Expressions (integers; `t` = the static type of the operation, `T` its Lean term
   M10 `e1.max(e2)`, `e1.min(e2)`         `(max ⟦e1⟧ ⟦e2⟧)`, `(min ⟦e1⟧ ⟦e2⟧)`
   M11 `<t>::MIN`, `<t>::MAX`, `t::MIN`…  `(IntTy.minVal T)`, `(IntTy.maxVal T)`
   M12 `assert!(c)`                       [guard ¬ (⟦c⟧) ⇒ `Panic.assert`]
+  M13 `e1.rem_euclid(e2)`                guards as M5, term `(Int.emod ⟦e1⟧ ⟦e2⟧)`   (the non-negative remainder)
+Statements (besides S1–S9, S1' and S7' of rs2lean.py)
+  S10 `for i in a..b { B }`, `for _ in a..b { B }`      `let mut #i = a; let #n = b; while #i < #n { let i = #i; B; #i = #i + 1 }` with S7; the step is
+                                        not overflow-checked (`#i < #n ≤ MAX`); the bounds are evaluated once, in order; `..=`, `.rev()`,
+                                        other iterators: error
 Expressions (structs)
   R1  `S { f: e, … }`, `Self { f }`      the tuple of the field terms (declaration order; initialisers are evaluated in source order)
   R2  `e.f`                              the component of ⟦e⟧
@@ -64,7 +69,7 @@ import re
 import sys
 
 sys.path.insert(0, os.path.dirname(os.path.abspath(__file__)))
-from rs2lean import TranslateError, Parser, Node, KEYWORDS, write_if_changed  # noqa: E402
+from rs2lean import TranslateError, Parser, Node, KEYWORDS, write_if_changed, SUBSET, tie_findings  # noqa: E402,F401
 
 INT_TYPES = {"i8": (True, 8), "i16": (True, 16), "i32": (True, 32), "i64": (True, 64), "i128": (True, 128), "isize": (True, 64),
              "u8": (False, 8), "u16": (False, 16), "u32": (False, 32), "u64": (False, 64), "u128": (False, 128), "usize": (False, 64)}
@@ -813,6 +818,9 @@ class FnEmitter:
         k = e.kind
         if k == "rawval":
             return [], e.val, e.ty
+        if k == "incr":                                   # S10: the step of a counted loop; `i < n` holds, so `i + 1` cannot overflow
+            pre, v, ty = self.expr(e.e, env, ctx, st)
+            return pre, f"({v} + 1)", ty
         if k == "lit":                                                                     # M1
             tv = self.lit.setdefault(id(e), TVar())
             if e.suffix:
@@ -985,6 +993,15 @@ class FnEmitter:
         else:
             p1, v1, t1 = self.expr(e.recv, env, ctx, st)
         if is_int(t1):
+            if e.name == "rem_euclid":                                                     # M13
+                if len(e.args) != 1:
+                    self.err(e.line, "`.rem_euclid` takes one argument")
+                p2, v2, t2 = self.expr(e.args[0], env, ctx, st, t1)
+                ty = self.unify(t1, t2, e.line)
+                T = self.lean_ty(ty, e.line)
+                return (p1 + p2 + [("guard", f"{v2} = 0", "divzero"),
+                                   ("guard", f"{T}.signed = true ∧ {v1} = IntTy.minVal {T} ∧ {v2} = -1", "overflow")],
+                        f"(Int.emod {v1} {v2})", ty)
             if e.name in ("wrapping_add", "wrapping_sub", "wrapping_mul", "max", "min"):
                 if len(e.args) != 1:
                     self.err(e.line, f"`.{e.name}` takes one argument")
@@ -1141,10 +1158,37 @@ class FnEmitter:
         def go(env2):
             return self.stmts(rest, tail, line, env2, ctx, st, after, ind)
 
+        if k == "scope":                                                                    # first copy of a `loop` body (S7')
+            return self.block(s.body, env, ctx, st, go, ind)
+        if k in ("break", "continue"):
+            self.err(s.line, f"`{k}` other than the single `if c {{ break; }}` at the head or tail of a `loop` is outside the translated subset")
+        if k == "for":                                                                      # S10: counted loop
+            it = s.iter
+            if it.kind != "range" or it.inclusive or s.pat.kind not in ("pvar", "pwild"):
+                self.err(s.line, "only `for i in a..b` / `for _ in a..b` is in the translated subset")
+            if not hasattr(s, "tag"):
+                self.tr.for_count = getattr(self.tr, "for_count", 0) + 1
+                s.tag = self.tr.for_count
+            ni, nn = f"#i{s.tag}", f"#n{s.tag}"
+            ci, cn = Node("var", s.line, name=ni), Node("var", s.line, name=nn)
+            inner = ([Node("let", s.line, pat=s.pat, mut=False, expr=ci, ann=None)] if s.pat.kind == "pvar" else []) + list(s.body.stmts)
+            if s.body.tail is not None:
+                self.err(s.body.tail.line, "a `for` body that ends in a value is outside the translated subset")
+            inner.append(Node("expr", s.line, expr=Node("assign", s.line, op="=", target=ci, expr=Node("incr", s.line, e=ci))))
+            des = [Node("let", s.line, pat=Node("pvar", s.line, name=ni), mut=True, expr=it.lo, ann=None),
+                   Node("let", s.line, pat=Node("pvar", s.line, name=nn), mut=False, expr=it.hi, ann=None),
+                   Node("while", s.line, cond=Node("cmp", s.line, op="<", l=ci, r=cn), body=Node("block", s.line, stmts=inner, tail=None))]
+            return self.stmts(des + rest, tail, line, env, ctx, st, after, ind)
         if k == "let":
             if s.pat.kind == "ptuple":
                 self.err(s.line, "tuple patterns are outside the translated subset")
-            pre, v, ty = self.expr(s.expr, env, ctx, st)
+            ann = self.norm_ty(s.ann) if getattr(s, "ann", None) is not None else None
+            pre, v, ty = self.expr(s.expr, env, ctx, st, ann if ann is not None and is_int(ann) else None)
+            if ann is not None:                                                             # S1': the annotation must be the initialiser's type
+                if is_int(ann) and is_int(ty):
+                    self.unify(ty, ann, s.line)
+                elif resolve(ty) != ann:
+                    self.err(s.line, "the type annotation of `let` is not the type of its initialiser")
             if s.pat.kind == "pwild":
                 return self.wrap(pre, go(env), ind)
             names = self.bind_names(ty, st)
@@ -1539,7 +1583,7 @@ def run(src_path, out_path, ns, rel, pid, struct, wanted, macro=None):
             info["instances"] = ["/".join(a[1] for a in inv.args) for inv in tr.invocations]
         text = render(defs, ns, rel, pid, stem)
     except (OSError, TranslateError) as e:
-        problems.append(f"rs2lean_typed: {e}")
+        problems.append(SUBSET + f"rs2lean_typed: {e}" if isinstance(e, TranslateError) else f"rs2lean_typed: {e}")
         text = render([], ns, rel, pid, stem, failure=str(e))
     info["rewritten"] = write_if_changed(out_path, text)
     return info, problems
